@@ -323,11 +323,12 @@ namespace Dune {
         // From: https://en.wikipedia.org/wiki/Eigenvalue_algorithm#2x2_matrices
         if constexpr(Tag==EigenvaluesEigenvectors) {
 
-          // Special casing for multiples of the identity
+          // Special casing for multiples of the identity (up to round-off relative to the size of the matrix)
+          using real_type = typename FieldTraits<K>::real_type;
           FieldMatrix<K,2,2> temp = matrix;
           temp[0][0] -= eigenValues[0];
           temp[1][1] -= eigenValues[0];
-          if(temp.infinity_norm() <= 1e-14) {
+          if(temp.infinity_norm() <= 64 * std::numeric_limits<real_type>::epsilon() * matrix.infinity_norm()) {
             eigenVectors[0] = {1.0, 0.0};
             eigenVectors[1] = {0.0, 1.0};
           }
